@@ -594,6 +594,10 @@ class NetlistMixin(object):
         except:
             pass
 
+        # Memoized attributes
+        for attr in ('_components', '_sim'):
+            self.__dict__.pop(attr, None)
+
     def _kill(self, sourcenames):
 
         new = self._new()
